@@ -7,8 +7,16 @@ HOOKS = {
     "add_only": True,
 }
 ENGINES = [
-    {"name": "E1", "path": "harness/engine", "kind_free_text": "choice-sequence property driver (C++): seeded generation, out-of-process shrinking, replay; targets in harness/targets, kits in harness/kits",
+    {"name": "E1", "path": "harness/engine", "kind_free_text": "choice-sequence property driver (C++): seeded generation / exhaustive enumeration, out-of-process byte shrinking, replay; targets in harness/targets, kits in harness/kits; upstream fuzz targets bridged as supplementary stages",
      "serves_properties": []},
+    {"name": "E1+F", "path": "harness/engine/covshim.c", "kind_free_text": "libFuzzer coverage-guided campaigns on the same targets (g++ trace-pc/trace-cmp + shim + clang libFuzzer runtime), thorough tier, build tree build/fz",
+     "serves_properties": ["C03", "C04", "C07", "C15", "C18", "C24", "C25", "C30", "C33", "C34", "C35", "C37", "C38", "C40", "C47", "C51", "C53", "C54", "C59", "C60", "C61"]},
+    {"name": "E2", "path": "py/e2.py", "kind_free_text": "Hypothesis strategies + independent Python references (test_framework, refscript.py, ref_aes.py) against the C++ code through the persistent JSON-lines daemon harness/sutd",
+     "serves_properties": ["C10", "C12", "C45", "C48", "C49", "C50"]},
+    {"name": "E3", "path": "bin/crashsim", "kind_free_text": "crash-image enumeration: strace recorder, op-log parser, image builder (kill / dropped unsynced suffix / torn write / second crash during recovery), recovery oracle in a separate process",
+     "serves_properties": ["C16", "C42", "C43", "C62"]},
+    {"name": "E4", "path": "harness/kits/schedhook.h", "kind_free_text": "harness-owned schedules: thread-count and task-runner configurations against the serial run, seeded yields, ThreadSanitizer tree build/tsan in the thorough tier",
+     "serves_properties": ["C14", "C63", "C65"]},
 ]
 NOTES = ("All checks rebuild from /repo's working tree through ninja in /verif/build/san (g++ ASan+UBSan, -DABORT_ON_FAILED_ASSUME) before running. "
          "Exit 2 = broken run (build failure / degenerate generator), never a violation.")
